@@ -89,7 +89,11 @@ def judge (case impl : String) : String :=
           match readPacket got with
           | none => "bad unreadable implementation-output"
           | some p =>
-            if RtpsSpec.encode p != bs then "bad reencode re-encoding-differs-from-datagram"
+            if RtpsSpec.encode p != bs then
+              -- a verdict of its own for "stopped early": the returned packet encodes a strict prefix of the datagram
+              if (RtpsSpec.encode p).isPrefixOf bs then
+                s!"bad unread returned-packet-encodes-only-the-first-{(RtpsSpec.encode p).length}-of-{bs.length}-bytes"
+              else "bad reencode re-encoding-differs-from-datagram"
             else if ¬ RtpsSpec.WF p then "bad illformed returned-packet-is-not-the-reading-of-its-encoding"
             else if c.toNat? != some bs.length then "bad cursor datagram-not-consumed"
             else match want with
@@ -287,9 +291,156 @@ def genFixedField (seed n : Nat) (tier : String) (emit : String → IO Unit) : I
     if [a0, a1, a2, a3] != magic then
       emit s!"raw {hexOfBytes (withMagic [a0, a1, a2, a3] p.hdr p.msgs)}"
 
+/-! ### content-dependent boundaries and concatenations
+
+  Nothing in the format makes a sub-message boundary depend on the *content* found there: whatever four bytes stand
+  at a boundary are an id, a flags byte and a length in the byte order the flags byte says.  A reader that treats some
+  byte pattern specially there (e.g. stops at the magic "because the next message starts") returns a packet whose
+  encoding is a strict prefix of the datagram.  The family puts format-significant 4-byte patterns at every kind of
+  boundary, in the reading the pattern itself denotes, and concatenates whole datagrams. -/
+
+/-- the length a 4-byte sub-message header pattern denotes (byte order from bit 0 of its own flags byte) -/
+def denotedLen (pat : Bytes) : Nat :=
+  match pat with
+  | [_, fl, a, b] => if fl.toNat % 2 == 1 then a.toNat + 256 * b.toNat else 256 * a.toNat + b.toNat
+  | _ => 0
+
+/-- the sub-message whose header bytes are `pat`, with payload `pl` -/
+def patSub (pat : Bytes) (pl : Bytes) : SubMsg :=
+  ⟨⟨pat.getD 0 0, pat.getD 1 0, UInt16.ofNat (denotedLen pat)⟩, pl⟩
+
+/-- `enc` line when the packet is well-formed (the implementation must return exactly it), `raw` otherwise.
+    Datagrams above 4 kB always go as `raw` (half the line length): the oracle is as strong there, since it rejects
+    an `err` on anything the reference decoder reads and an `ok p` unless `encode p` is the datagram and `WF p`
+    (and `encode` is injective on well-formed packets). -/
+def encOrRaw (p : Packet) : String :=
+  let d := RtpsSpec.encode p
+  if d.length ≤ 4096 ∧ RtpsSpec.WF p then s!"enc {hexOfBytes d} {showPacket p}" else s!"raw {hexOfBytes d}"
+
+/-- the sub-messages (explicit non-zero lengths, both byte orders) that precede the boundary under test -/
+def preSubs : List SubMsg := [mkSub 0x09 1 8 (seqBytes 8), mkSub 0x15 0 5 (seqBytes 5), mkSub 0x07 3 2 [0xaa, 0xbb]]
+
+/-- key patterns: the magic, its closest near misses, the magic with the byte-order bit set, header fields, constants -/
+def dictKey : List Bytes :=
+  ([ magic,
+     [0x52, 0x54, 0x50, 0x58], [0x52, 0x55, 0x50, 0x53], [0x52, 0x54, 0x53, 0x50], [0x72, 0x74, 0x70, 0x73],
+     [0x51, 0x54, 0x50, 0x53], [0x53, 0x54, 0x50, 0x53], [0x52, 0x54, 0x50, 0x52], [0x52, 0x54, 0x50, 0x54],
+     [0x52, 0x54, 0x4f, 0x53], [0x52, 0x54, 0x51, 0x53], [0x53, 0x50, 0x54, 0x52],
+     [0x52, 0x54, 0x00, 0x00], [0x52, 0x54, 0x00, 0x01], [0x52, 0x54, 0x00, 0x04], [0x52, 0x55, 0x04, 0x00],
+     [0x52, 0x54, 0x00, 0x10], [0x52, 0x54, 0x00, 0x14],
+     (RtpsSpec.encodeHdr hdr0).drop 4 |>.take 4,     -- version + vendor
+     (RtpsSpec.encodeHdr hdr0).drop 8 |>.take 4,     -- first prefix bytes
+     (RtpsSpec.encodeHdr hdr0).drop 16 |>.take 4,    -- last prefix bytes
+     [0x00, 0x00, 0x00, 0x00], [0xff, 0xff, 0xff, 0xff], [0x00, 0x00, 0x00, 0x01], [0x00, 0x01, 0x00, 0x00],
+     [0xff, 0xff, 0x00, 0x00], [0x00, 0x00, 0xff, 0xff], [0x01, 0x01, 0x01, 0x01] ] : List Bytes).eraseDups
+
+/-- the full dictionary: key patterns, every single-byte near miss of the magic, the sibling words and permutations -/
+def dictFull : List Bytes :=
+  let near1 : List Bytes := (List.range 4).flatMap fun i =>
+    (nearBytes (magic.getD i 0)).map fun b => magic.set i b
+  (dictKey ++ near1 ++ siblingMagics ++ permutations4 magic).eraseDups
+
+/-- all variants for pattern `pat` at the boundary behind `pre` (sub-messages with explicit lengths) -/
+def emitBoundary (emit : String → IO Unit) (h : Header) (pre : List SubMsg) (pat : Bytes) (level : Nat) : IO Unit := do
+  let len := denotedLen pat
+  let base := RtpsSpec.encode ⟨h, pre⟩
+  if len == 0 then
+    -- a zero length field: the rest of the datagram is payload (empty, some bytes, bytes that look like sub-messages)
+    emit (encOrRaw ⟨h, pre ++ [patSub pat []]⟩)
+    emit (encOrRaw ⟨h, pre ++ [patSub pat (seqBytes 5)]⟩)
+    emit (encOrRaw ⟨h, pre ++ [patSub pat (magic ++ pat ++ magic)]⟩)
+  else
+    let pl := seqBytes len
+    -- exact fit, last
+    emit (encOrRaw ⟨h, pre ++ [patSub pat pl]⟩)
+    -- followed by further sub-messages: explicit, then zero-length tail; and by the same pattern again
+    if level ≥ 1 then
+      emit (encOrRaw ⟨h, pre ++ [patSub pat pl, mkSub 0x09 1 8 (seqBytes 8), mkSub 0x07 2 0 (seqBytes 6)]⟩)
+    if level ≥ 2 then
+      emit (encOrRaw ⟨h, pre ++ [patSub pat pl, patSub pat pl]⟩)
+      -- the payload itself starts with the pattern / the magic
+      emit (encOrRaw ⟨h, pre ++ [patSub pat ((magic ++ pat ++ pl).take len)]⟩)
+    -- one byte short, one byte long (the oracle decides; the unchanged reader rejects both)
+    emit s!"raw {hexOfBytes (base ++ pat ++ pl.dropLast)}"
+    if level ≥ 1 then
+      emit s!"raw {hexOfBytes (base ++ pat ++ pl ++ [0x77])}"
+  -- the pattern alone at the end of the datagram, and followed by one more copy of itself only
+  emit s!"raw {hexOfBytes (base ++ pat)}"
+  emit s!"raw {hexOfBytes (base ++ pat ++ pat)}"
+  emit s!"raw {hexOfBytes (base ++ pat.take 3)}"
+
+def genBoundary (seed n : Nat) (tier : String) (emit : String → IO Unit) : IO Unit := do
+  let thorough := tier == "thorough"
+  -- (1) dictionary patterns at every kind of boundary: behind the header and behind 1, 2, 3 explicit-length sub-messages
+  for k in List.range 4 do
+    let pre := preSubs.take k
+    -- thorough: the full dictionary, all variants, at every boundary.  quick: the key patterns at every boundary (all
+    -- variants directly behind the header), the rest of the dictionary behind the header (exact fit / one short only)
+    let dict := if thorough ∨ k == 0 then dictFull else dictKey
+    -- the header bytes of the preceding sub-message are a pattern too
+    let prev : List Bytes := match pre.getLast? with
+      | some m => [(RtpsSpec.encodeSub m).take 4]
+      | none => []
+    for pat in dict ++ prev do
+      let level := if thorough then 2 else if ¬ dictKey.contains pat ∧ ¬ prev.contains pat then 0 else if k == 0 then 2 else 1
+      emitBoundary emit hdr0 pre pat level
+  -- the magic at a boundary behind a zero-length sub-message is payload
+  emit (encOrRaw ⟨hdr0, [mkSub 0x09 1 0 (magic ++ seqBytes 20)]⟩)
+  emit (encOrRaw ⟨hdr0, [mkSub 0x09 1 8 (seqBytes 8), mkSub 0x15 0 0 (RtpsSpec.encode ⟨hdr0, preSubs⟩)]⟩)
+  -- (2) concatenations of two and three well-formed datagrams (the later ones are sub-messages of the first, as far as
+  -- the format goes: id 0x52, flags 0x54, big-endian length 0x5053 = 20563)
+  let fit := 0x5053 - 16 - 4       -- payload size that makes a one-sub-message datagram exactly 4 + 20563 bytes
+  let parts : List Packet := [
+    ⟨hdr0, []⟩,
+    ⟨hdr0, [mkSub 0x15 1 3 (seqBytes 3)]⟩,
+    ⟨hdr0, preSubs⟩,
+    ⟨hdr0, [mkSub 0x09 1 8 (seqBytes 8), mkSub 0x07 2 0 (seqBytes 6)]⟩,
+    ⟨hdr0, [mkSub 0x15 1 fit (seqBytes fit)]⟩,          -- as a second datagram it is read as ONE well-formed sub-message
+    ⟨hdr0, [mkSub 0x15 0 (fit - 12) (seqBytes (fit - 12)), mkSub 0x09 1 8 (seqBytes 8)]⟩ ]   -- the same, two sub-messages inside
+  for a in parts do
+    for b in parts do
+      let ab := RtpsSpec.encode a ++ RtpsSpec.encode b
+      emit s!"raw {hexOfBytes ab}"
+      emit s!"raw {hexOfBytes (ab ++ RtpsSpec.encode ⟨hdr0, []⟩)}"
+      if thorough then
+        for c in parts do
+          emit s!"raw {hexOfBytes (ab ++ RtpsSpec.encode c)}"
+  -- a datagram followed by a second one that is padded to the size the magic denotes (accepted by the format)
+  for a in parts.take 3 do
+    for extra in [0, 1, 2] do
+      let tailLen := 0x5053 - 16 + extra - 1
+      emit s!"raw {hexOfBytes (RtpsSpec.encode a ++ RtpsSpec.encodeHdr hdr0 ++ seqBytes tailLen)}"
+  -- (3) random streams (own random stream)
+  let mut r := Rng.mk' (seed + 0xC20B0)
+  for t in List.range (n / 4) do
+    -- a random well-formed packet in which the header of one sub-message is overwritten by a dictionary pattern
+    let (p, r1) := genPacket r 4
+    let (pat, r2) := r1.pick dictFull
+    let (j, r3) := r2.nat (max p.msgs.length 1)
+    r := r3
+    let d := RtpsSpec.encode p
+    let off := 20 + ((p.msgs.take j).map fun m => 4 + m.payload.length).sum
+    if off + 4 ≤ d.length then
+      emit s!"raw {hexOfBytes (d.take off ++ pat ++ d.drop (off + 4))}"
+    -- the same with the payload resized to what the pattern denotes (every 4th: these are ~20 kB each)
+    if t % 4 == 0 then
+      let len := denotedLen pat
+      let ms := p.msgs.mapIdx fun idx m =>
+        if idx == j then patSub pat (if len == 0 then m.payload else seqBytes len) else m
+      emit (encOrRaw ⟨p.hdr, ms⟩)
+    -- two or three random well-formed packets concatenated
+    let (q1, r4) := genPacket r 2
+    let (q2, r5) := genPacket r4 2
+    let (q3, r6) := genPacket r5 1
+    let (three, r7) := r6.nat 3
+    r := r7
+    emit s!"raw {hexOfBytes (RtpsSpec.encode q1 ++ RtpsSpec.encode q2 ++ (if three == 0 then RtpsSpec.encode q3 else []))}"
+
 def gen (seed n : Nat) (tier : String) (emit : String → IO Unit) : IO Unit := do
   -- (5) the fixed-value field (magic) family -----------------------------------
   genFixedField seed n tier emit
+  -- (6) content-dependent boundaries, concatenations ----------------------------
+  genBoundary seed n tier emit
   -- (4) exhaustive small spaces ------------------------------------------------
   -- every flags byte x {short, 258-byte (asymmetric length bytes), zero-length} x {last, followed}
   for fl in List.range 256 do
